@@ -454,11 +454,14 @@ func (d *protoDom) builtin(st *sState, name string, call *ssa.Call, args []sVal)
 		case sSlice:
 			arr, ok := st.heap[dst.id].(*hArray)
 			n := d.lenOf(st, src)
+			room := dst.hi - dst.lo
+			if ok && n < 0 && proveP(st.pfacts, pOp("len", src), token.GEQ, pC(int64(room))) {
+				n = room + 1 // at least the room: only the first room bytes are copied
+			}
 			if !ok || n < 0 {
 				e.fail("copy of a byte string of unknown length at %s", pos)
 				return sOpaque{"copy"}, true
 			}
-			room := dst.hi - dst.lo
 			if n > room {
 				t, _ := d.sliceTerm(st, src, 0, room)
 				src, n = t, room
@@ -613,6 +616,47 @@ func protoCallName(p *Prog, call *ssa.Call) (string, []ssa.Value) {
 }
 
 // infeasible: the facts of the path contradict each other
+// splitCopy: copy(local[:], s) with s of unknown length copies min(len(s), room) bytes: the state is split into the lengths
+// below the room (one state each) and "at least the room"
+func (d *protoDom) splitCopy(e *sched, st *sState, call *ssa.Call) []*sState {
+	if len(call.Call.Args) != 2 {
+		return nil
+	}
+	dst, ok := e.get(st, call.Call.Args[0]).(sSlice)
+	if !ok {
+		return nil
+	}
+	src, ok := e.get(st, call.Call.Args[1]).(pBytes)
+	if !ok || d.lenOf(st, src.t) >= 0 {
+		return nil
+	}
+	room := dst.hi - dst.lo
+	if room <= 0 || room > 128 {
+		return nil
+	}
+	lt := pOp("len", src.t)
+	if proveP(st.pfacts, lt, token.GEQ, pC(int64(room))) {
+		return nil
+	}
+	var cases []*sState
+	for c := 0; c <= room; c++ {
+		cs := st.clone()
+		if c < room {
+			cs.addFact(pFact{a: lt, op: token.EQL, b: pC(int64(c))})
+		} else {
+			cs.addFact(pFact{a: lt, op: token.GEQ, b: pC(int64(room))})
+		}
+		if !d.infeasible(cs) {
+			cases = append(cases, cs)
+		}
+	}
+	if len(cases) == 0 {
+		return nil
+	}
+	*st = *cases[0]
+	return cases[1:]
+}
+
 // split: a byte of a string addressed by an index that depends on a length the path bounds but does not pin
 // (priv[len(priv)-1] after len(priv) <= 32) is decided per length: the state becomes the first feasible length and the
 // other lengths are returned as new states
